@@ -4,8 +4,8 @@
 # Applies the patch in the scratch worktree, runs the checks there, reverts.
 set -u
 PATCH="$1"; shift
-L=/tmp/lane2
-export CARGO_HOME=$L/cargo-home
+L=${LANE_DIR:-/tmp/lane2}
+[ -d $L/cargo-home ] && export CARGO_HOME=$L/cargo-home
 ( cd /verif/harness && rsync -a --exclude target --exclude 'target-*' ./ $L/harness/ && cd $L/harness && sed -i "s#/repo/#$L/repo/#g" Cargo.toml miri-seqlock/src/main.rs )
 git -C $L/repo checkout -q --detach "$(git -C /repo rev-parse HEAD)" 2>/dev/null
 git -C $L/repo checkout -- . 
